@@ -240,6 +240,12 @@ func Explore(c *fw.Ctx, mon Monitors) {
 var hostileNames = []string{
 	"a\uFFFEb.txt", "\uFFFF", "m.png", "n.html", "o",
 	"a", "b", "c.txt", "d e", "p%q", "h#i", "q?r", "s;t", "u+v", `"w"`, "x<&>y", "é€ü", "..name", "a%2Fb", "n'o", ".hidden", "z.html", "back\\slash", "中文", "sp ace.txt",
+	// names that look like somebody's implementation artefacts: they are
+	// ordinary member names and must be treated as such
+	".webdav-put-1-1", ".webdav-put-", ".webdav-put-x.txt", ".#lock", "x~", ".tmp", "lost+found", "...", ".DS_Store",
+	// names whose final component sits at or near NAME_MAX (255 bytes), in
+	// one-, two- and three-byte characters
+	strings.Repeat("L", 255), strings.Repeat("k", 251) + ".txt", strings.Repeat("m", 236), strings.Repeat("é", 127), strings.Repeat("中", 85), strings.Repeat("n", 244),
 }
 
 func randContent(r *rand.Rand) string {
